@@ -49,6 +49,18 @@ class Path:
                 return v
         return None
 
+    def guards(self):
+        """arithmetic comparisons decided on this path: [(op, lhs tree, rhs tree, value)] in path order"""
+        ops = {}
+        out = []
+        for e in self.log:
+            if e[0] == "cmp":
+                ops[e[1]] = e
+            elif e[0] == "choice" and str(e[1]).startswith("cmp:") and e[1] in ops:
+                c = ops[e[1]]
+                out.append((c[2], expr_of(self, c[3]), expr_of(self, c[4]), e[2]))
+        return out
+
     def all_choices(self, regex):
         r = re.compile(regex)
         return [(n, v) for n, v in self.choices if r.search(str(n))]
